@@ -451,6 +451,66 @@ pub fn run(cx: &Cx) -> Report {
                 });
             }
         }
+        // 2b. prefixes have no entry in `definitions`: take their text from the bundled files and
+        // evaluate it in the loaded context (the evaluator, not the loader's own prefix arithmetic)
+        {
+            let mut texts: Vec<&str> = vec![rink_core::DEFAULT_FILE.unwrap_or("")];
+            if cfg == Cfg::Currency {
+                texts.push(rink_core::CURRENCY_FILE.unwrap_or(""));
+            }
+            for text in texts {
+                let mut parsed = vec![];
+                let _ = capture_stdout(|| parsed = rink_core::loader::gnu_units::parse_str(text).defs);
+                for entry in &parsed {
+                    if let rink_core::ast::Def::Prefix { expr, is_long } = &*entry.def {
+                        st.eval();
+                        st.class("prefix_definition_reevaluated");
+                        let stored = ctx.registry.prefixes.iter().find(|(p, _)| p == &entry.name).map(|(_, v)| v.clone());
+                        let stored = match stored {
+                            Some(v) => v,
+                            None => {
+                                rep.violations.push(Violation {
+                                    phase: "definitions".into(),
+                                    case: json!({"config": cfg.name(), "prefix": entry.name}),
+                                    detail: format!("[prefix-not-stored] [{}] prefix `{}-` is defined in the file but not in the loaded prefix table", cfg.name(), entry.name),
+                                });
+                                continue;
+                            }
+                        };
+                        match catch(|| ctx.eval(&expr.0)) {
+                            Ok(Ok(rink_core::runtime::Value::Number(n))) => {
+                                let same = n.unit.is_dimensionless() && n.value == stored;
+                                let unit_same = !*is_long || ctx.registry.units.get(&entry.name).map(|u| u.value == stored && u.unit.is_dimensionless()).unwrap_or(false);
+                                if !same || !unit_same {
+                                    let sig = "prefix-stored-value-differs-from-definition";
+                                    if known.contains(sig) {
+                                        st.known(sig, &entry.name);
+                                    } else {
+                                        rep.violations.push(Violation {
+                                            phase: "definitions".into(),
+                                            case: json!({"config": cfg.name(), "prefix": entry.name}),
+                                            detail: format!(
+                                                "[{}] [{}] prefix `{}-` = `{}` is stored as {:?} (as a unit: {:?}) but its definition evaluates to {}",
+                                                sig,
+                                                cfg.name(),
+                                                entry.name,
+                                                expr.0,
+                                                stored,
+                                                ctx.registry.units.get(&entry.name).map(regdump::number_text),
+                                                regdump::number_text(&n)
+                                            ),
+                                        });
+                                    }
+                                }
+                            }
+                            _ => {
+                                st.class("prefix_definition_not_evaluable_as_a_query (refers to a short prefix)");
+                            }
+                        }
+                    }
+                }
+            }
+        }
         // 3. structural invariants
         for (sig, problems) in structural(&ctx, cfg) {
             st.eval();
